@@ -16,17 +16,17 @@ import (
 
 // Shard is one deterministic slice of a suite run.
 type Shard struct {
-	R      *RNG
-	Index  int
+	R       *RNG
+	Index   int
 	NShards int
 	Work    string // scratch directory of this run (under the -out directory)
-	Tier   string
-	Repo   string
-	cases  []string
-	obs    []string
-	fails  []Failure
-	counts map[string]int
-	sigs   map[string]struct{}
+	Tier    string
+	Repo    string
+	cases   []string
+	obs     []string
+	fails   []Failure
+	counts  map[string]int
+	sigs    map[string]struct{}
 }
 
 type Failure struct {
@@ -111,16 +111,16 @@ var Suites = map[string]SuiteFunc{}
 var Budgets = map[string][2]int{}
 
 type Stats struct {
-	Suite     string         `json:"suite"`
-	Seed      uint64         `json:"seed"`
-	Tier      string         `json:"tier"`
-	Cases     int            `json:"cases"`
-	Distinct  int            `json:"distinct_signatures"`
-	DistinctCases int        `json:"distinct_nontrivial_cases"`
-	Counts    map[string]int `json:"counts"`
-	Failures  []Failure      `json:"failures"`
-	Samples   []string       `json:"samples"`
-	NFailures int            `json:"n_failures"`
+	Suite         string         `json:"suite"`
+	Seed          uint64         `json:"seed"`
+	Tier          string         `json:"tier"`
+	Cases         int            `json:"cases"`
+	Distinct      int            `json:"distinct_signatures"`
+	DistinctCases int            `json:"distinct_nontrivial_cases"`
+	Counts        map[string]int `json:"counts"`
+	Failures      []Failure      `json:"failures"`
+	Samples       []string       `json:"samples"`
+	NFailures     int            `json:"n_failures"`
 }
 
 // RunSuite runs a suite in parallel shards and writes cases.txt, impl.txt, stats.json into dir.
